@@ -301,7 +301,35 @@ func genJS2Go(p *prog, r *rand.Rand, nRandom int) {
 	p.addJS2Go("Function", `function(a,b){return a+b}`, "", "A=func;B=t", "", nil)
 	p.addJS2Go("Function", `(x)=>x`, "", "A=func;B=t", "", nil)
 	// --- cycles on the JS side: object cycles must terminate (documentation silent on the shape)
+	genObservations(p)
 	p.addJS2Go("Object(cyclic)", `(function(){var o={x:1};o.self=o;return o})()`, "obj{0073"+"0065006c0066=cycle,0078=num:3ff0000000000000}", "B=t", "", nil)
+}
+
+// genObservations: undocumented corners, executed and reported, not asserted.
+func genObservations(p *prog) {
+	st := p.newStruct(Fld{"A", basics[KInt]})
+	p.addObserve("null->map[string]int(param)", "null", mapOf(basics[KInt]), 0)
+	p.addObserve("null->*struct(param)", "null", ptrTo(st), 0)
+	p.addObserve("null->struct(param)", "null", st, 0)
+	p.addObserve("null->string(param)", "null", basics[KString], 0)
+	p.addObserve("null->int(param)", "null", basics[KInt], 0)
+	p.addObserve("undefined->int(param)", "undefined", basics[KInt], 0)
+	p.addObserve("undefined->[]int(param)", "undefined", sliceOf(basics[KInt]), 0)
+	p.addObserve("undefined.Interface()", "undefined", nil, 0)
+	p.addObserve("cyclic-array.Interface()", "(function(){var a=[1];a.push(a);return a})()", nil, 0)
+	p.addObserve("200->int8(param)", "200", basics[KInt8], 0)
+	p.addObserve("-1->uint8(param)", "-1", basics[KUint8], 0)
+	p.addObserve("3e9->int(param)", "3e9", basics[KInt], 0)
+	p.addObserve("-1->uint(param)", "-1", basics[KUint], 0)
+	p.addObserve("0.1->float32(param)==float32(0.1)", "0.1", basics[KFloat32], 0)
+	p.addObserve("Int8Array->[]int(param)", "new Int8Array([-1,2])", sliceOf(basics[KInt]), 0)
+	p.addObserve("Uint8ClampedArray.Interface()", "new Uint8ClampedArray([1,2])", nil, 0)
+	p.addObserve("BigInt.Interface()", "10n", nil, 0)
+	p.addObserve("boxed-Number.Interface()", "new Number(5)", nil, 0)
+	p.addObserve("Symbol.Interface()", "Symbol('x')", nil, 0)
+	p.addObserve("ArrayBuffer.Interface()", "new ArrayBuffer(2)", nil, 0)
+	p.body = append(p.body, "\tfunc() {\n\t\tdefer func() { recover() }()\n\t\tprintln(\"O []uintptr-class \" + js.Global.Call(\"__vpIdent\", []uintptr{1, 2}).Get(\"constructor\").Get(\"name\").String())\n\t}()\n")
+	p.body = append(p.body, "\tfunc() {\n\t\tdefer func() { recover() }()\n\t\tprintln(\"O map[int]string-keys \" + js.Global.Get(\"JSON\").Call(\"stringify\", js.Global.Call(\"__vpIdent\", map[int]string{1: \"a\", -2: \"b\"})).String())\n\t}()\n")
 }
 
 func isNilVal(v *Val) bool {
